@@ -69,7 +69,8 @@ REQUIRED = ["op:gbk:dump-compare", "op:gbk:fixed-point", "op:gbk:write-repeatabl
             "class:sideloaded-protocluster", "class:sideloaded-subregion", "class:subregion", "class:pfam",
             "class:asdomain", "class:cds-motif", "class:prepeptide", "class:prepeptide-leader-core-tail",
             "class:module", "class:module-multi-cds", "class:region>=2-candidates", "class:t2pks",
-            "class:header-reference", "class:external-cds-motif"]
+            "class:header-reference", "class:external-cds-motif", "class:candidate-without-structure-after-one-with",
+            "class:origin-region-with-split-numbering"]
 
 
 # --------------------------------------------------------------------------------------------------
@@ -289,11 +290,16 @@ def _k14(clause, facts):
         and the sorted feature table depends on the order of the lists,
         which differs after a reload ('source' can even land behind the region). Only the order of otherwise
         identical features may differ. Must not hide: any difference in a feature's content, any order difference
-        in a record without any origin-crossing feature or area. """
+        in a record without any origin-crossing feature or area and without an area that starts on the same base as a
+        feature inside it. """
     fmt, parts = _split(clause)
     if parts != ["fixed-point"] or facts.get("unexplained_dump_differences") != 0:
         return False
-    if not facts.get("origin_crossing_feature_or_area_present") or "features/order" not in facts.get("sites", []):
+    if "features/order" not in facts.get("sites", []):
+        return False
+    # the same contradiction without the origin: an area starting on the same base as a feature inside it comes
+    # first by containment, while 'source' (first among equal coordinates) and the shorter-first rule disagree
+    if not (facts.get("origin_crossing_feature_or_area_present") or facts.get("area_shares_start_with_contained_feature")):
         return False
     return _sites_covered(fmt, facts, extra=("features/order",))
 
@@ -686,6 +692,20 @@ def crossing_feature_inside_area(dump: dict) -> bool:
     return False
 
 
+def area_shares_start_with_contained_feature(dump: dict) -> bool:
+    """ an area begins on the same base as a non-area feature lying inside it: the area-first rule (containment) and
+        the shorter-first rule (same start) of the feature comparison then pull in different directions """
+    areas = [intervals(entry["location"]) for kind in dump["areas"].values() for entry in kind]
+    for entry in dump["features"]:
+        if entry["type"] in AREA_TYPES or entry["type"] == "source":
+            continue
+        ivs = intervals(entry["location"])
+        start = min(s for s, _ in ivs)
+        if any(min(s for s, _ in a) == start and _contains(a, ivs) for a in areas):
+            return True
+    return False
+
+
 def crosses_origin(location: str) -> bool:
     """ the parts of a compound location, in reading order, step back over the origin (in an exon or an intron) """
     starts = [int(s) for s, _ in _RANGE.findall(location)]
@@ -715,6 +735,12 @@ def count_classes(ctx, facts: dict, spec: dict):
         ctx.count("class:kind:" + kind)
     if facts["max_candidates_per_region"] >= 2:
         ctx.count("class:region>=2-candidates")
+    if facts["candidates_with_structure"]:
+        ctx.count("class:candidate-with-structure")
+    if facts["candidate_without_structure_after_one_with"]:
+        ctx.count("class:candidate-without-structure-after-one-with")
+    if facts["origin_region_with_split_numbering"]:
+        ctx.count("class:origin-region-with-split-numbering")
     if facts["regions"] == 0:
         ctx.count("class:no-region")
     if any(p.get("t2pks") for p in spec["protoclusters"]):
@@ -789,6 +815,7 @@ def one_format(ctx, fmt, write, read, forward, record, case, base_facts):
                  "origin_crossing_feature_inside_area": crossing_feature_inside_area(original),
                  "origin_crossing_feature_or_area_present": original["topology"] == "circular" and any(
                      crosses_origin(entry["location"]) for entry in original["features"]),
+                 "area_shares_start_with_contained_feature": area_shares_start_with_contained_feature(original),
                  "dump_equal": not attributed and not unexplained,
                  "dump_differences_attributed_to": sorted(attributed), "unexplained_dump_differences": unexplained}
         ctx.violate(f"{fmt}:fixed-point", facts, case)
